@@ -200,3 +200,44 @@ impl Opts {
         self.tier == "thorough"
     }
 }
+
+/// Map `f` over `items` on `threads` worker threads (each with a big stack), keeping order.
+/// `init` builds one per-thread state (e.g. a compiler session).
+pub fn par_map<I, S, O>(
+    items: Vec<I>, threads: usize, init: impl Fn() -> S + Sync, f: impl Fn(&mut S, I) -> O + Sync,
+) -> Vec<O>
+where
+    I: Send,
+    O: Send,
+{
+    let n = items.len();
+    let threads = threads.max(1).min(n.max(1));
+    let mut slots: Vec<Option<O>> = (0..n).map(|_| None).collect();
+    let work: std::sync::Mutex<Vec<(usize, I)>> =
+        std::sync::Mutex::new(items.into_iter().enumerate().rev().collect());
+    let results: std::sync::Mutex<Vec<(usize, O)>> = std::sync::Mutex::new(Vec::with_capacity(n));
+    std::thread::scope(|scope| {
+        for _ in 0..threads {
+            std::thread::Builder::new()
+                .stack_size(512 << 20)
+                .spawn_scoped(scope, || {
+                    let mut state = init();
+                    loop {
+                        let next = work.lock().unwrap().pop();
+                        let Some((i, item)) = next else { break };
+                        let out = f(&mut state, item);
+                        results.lock().unwrap().push((i, out));
+                    }
+                })
+                .expect("spawn worker");
+        }
+    });
+    for (i, o) in results.into_inner().unwrap() {
+        slots[i] = Some(o);
+    }
+    slots.into_iter().map(|o| o.expect("worker produced every result")).collect()
+}
+
+pub fn n_threads() -> usize {
+    std::thread::available_parallelism().map(|n| n.get()).unwrap_or(4)
+}
